@@ -62,17 +62,21 @@ def check(R, srcs, name):
 
 def run(R):
     R.rule = ("cases = accepted sources with the complete walk of their AST (one node claim per node, one field claim per recorded "
-              "position): ShellGen programs and all their layout variants, accepted ShellRec token strings, hand-written multi-byte "
+              "position): ShellGen programs and their layout variants, the word focus, accepted ShellRec token strings, hand-written multi-byte "
               "sources; distinct_nontrivial = distinct sources spanning several lines or holding a multi-byte character or an expansion")
     R.assumptions = ["no aliases (positions inside alias values are not source positions)",
                      "documented exclusions: Comment.End; sibling End <= next Pos is not demanded for nodes holding a here-document "
                      "(their text is not contiguous)", "columns count characters; the driver indexes lines by runes"]
     cases = c09.gen(R, 2, 10 if R.tier == "quick" else 300)
     srcs = []
-    for c in cases:
+    for n, c in enumerate(cases):
         srcs.append(c["src"])
-        for v in c["variants"]:
-            srcs.append(v["src"])
+        # all layout variants (quick tier: of every program without here-documents and of every 4th with)
+        if R.tier != "quick" or "<<" not in c["src"] or n % 4 == 0:
+            for v in c["variants"]:
+                srcs.append(v["src"])
+    # the word focus: one argument word with up to 2 (3) non-minimal productions inside it
+    srcs += [c["src"] for c in shellgen.focus(R, "wprog", 2 if R.tier == "quick" else 3, 4)]
     rec = c03.gen(R, 3 if R.tier == "quick" else 4, False, name="recbfs")
     srcs += [c["src"] for c in rec if c["cls"] == "accept"]
     srcs += MULTIBYTE
